@@ -688,6 +688,65 @@ fn grid(args: &[String]) {
     }
 }
 
+/// Scheme definition of `(mk n)` for the chain families of `measure`: every level is made by a call of a
+/// top-level procedure, so that the chain hangs off nothing but its own code (no named-let environment).
+fn chain_program(dir: &str) -> String {
+    let wrap = match dir {
+        "closure" => "(define (wrap acc) (lambda () acc))",
+        "cont" => "(define (wrap acc) (call/cc (lambda (k) k)))",
+        _ => panic!("unknown chain {}", dir),
+    };
+    format!(
+        "{} (define (mk n) (let loop ((i 0) (acc 0)) (if (= i n) acc (loop (+ i 1) (wrap acc)))))",
+        wrap
+    )
+}
+
+/// Heap address the global variable `name` refers to (its slot holds a `Ptr`).
+fn global_ptr(vm: &Vm, name: &str) -> Option<usize> {
+    let sym = *vm.verif_heap().verif_symbol_table().get(name)?;
+    let slot = vm.verif_globenv().verif_bindings().into_iter().find(|b| b.0 == sym)?.1;
+    vm.verif_globenv().get_slot(slot).as_ptr().ok()
+}
+
+/// Debug aid: the heap cells reachable from the chain `x = (mk n)` of direction `dir`, breadth first.
+fn chain_dump(dir: &str, n: usize) {
+    let mut vm = Vm::new();
+    eval_all(&mut vm, &chain_program(dir)).expect("mk");
+    eval_all(&mut vm, &format!("(define x (mk {}))", n)).expect("build");
+    vm.verif_force_gc();
+    let root = global_ptr(&vm, "x").expect("x");
+    println!("root {}", root);
+    let cells = vm.verif_heap().verif_cells();
+    let mut seen = std::collections::BTreeSet::new();
+    let mut queue = std::collections::VecDeque::new();
+    queue.push_back(root);
+    while let Some(p) = queue.pop_front() {
+        if !seen.insert(p) || seen.len() > 60 {
+            continue;
+        }
+        let text = format!("{:?}", cells[p]);
+        println!("{} => {}", p, text.chars().take(400).collect::<String>());
+        // every decimal number in the debug text that is a heap index is a candidate successor
+        let mut cur = String::new();
+        for ch in text.chars().chain(std::iter::once(' ')) {
+            if ch.is_ascii_digit() {
+                cur.push(ch);
+            } else {
+                if let Ok(q) = cur.parse::<usize>() {
+                    if q < cells.len() && q > 8 {
+                        queue.push_back(q);
+                    }
+                }
+                cur.clear();
+            }
+        }
+    }
+    depth::reset();
+    vm.verif_heap_mut().mark(root);
+    println!("mark depth from root: {}", depth::max_of_group("mark"));
+}
+
 // ------------------------------------------------------------------ measure (in process)
 
 fn measure(depths: &[usize]) {
@@ -875,6 +934,7 @@ fn main() {
                 .join()
                 .unwrap();
         }
+        Some("chain-dump") => chain_dump(&args[1], args[2].parse().unwrap()),
         Some("drop-bytes") => {
             let d = nums(&args[1..]);
             std::thread::Builder::new()
